@@ -75,6 +75,7 @@ type worldCfg struct {
 	resetThrottle     int
 	metrics           bool
 	flat              bool // apiEncoding jsonflat
+	hauth             bool // Config.HeaderAuth = hauth.svc.login
 }
 
 type httpReq struct {
@@ -138,6 +139,12 @@ func newWorld(cfg worldCfg, u *universe) (*world, error) {
 	if cfg.metrics {
 		sc.MetricsPort = 8090
 	}
+	if cfg.hauth {
+		ha := "hauth.svc.login"
+		sc.HeaderAuth = &ha
+	}
+	put := "put" // PUT is mapped to the call method "put"; DELETE and PATCH are not mapped
+	sc.PUTMethod = &put
 	sc.SetDefault()
 	serv, err := server.NewService(w.mq, sc)
 	if err != nil {
@@ -855,6 +862,21 @@ func (w *world) httpDo(method, path, rawQuery, body string) {
 	name := fmt.Sprintf("h%d", len(w.https))
 	var stim string
 	switch method {
+	case "PUT":
+		rid := server.PathToRID(path, rawQuery, "/api/")
+		params := "-"
+		if strings.TrimSpace(body) != "" {
+			params = compactJSON([]byte(body))
+		}
+		stim = "http " + name + " PUT " + rid + " " + params
+		if !specValidRID(rid, true) || (len(path) > len("/api/") && path[len(path)-1] == '/') {
+			stim = "http " + name + " GET404"
+		}
+	case "DELETE":
+		stim = "http " + name + " DELETE405"
+		if len(path) > len("/api/") && path[len(path)-1] == '/' {
+			stim = "http " + name + " GET404"
+		}
 	case "POST":
 		rid, action := server.PathToRIDAction(path, rawQuery, "/api/")
 		params := "-"
